@@ -4,6 +4,7 @@ import ast
 
 from sa.effects import MUTATORS
 
+IMMUTABLE_CALLS = ('int', 'float', 'str', 'bool', 'tuple', 'frozenset', 'bytes', 'complex', 'Fraction', 'Decimal')
 MUTABLE_CALLS = ('list', 'dict', 'set', 'deque', 'defaultdict', 'OrderedDict', 'bytearray')
 ORDER_FREE_CONSUMERS = ('sorted', 'len', 'set', 'frozenset', 'sum', 'min', 'max', 'any', 'all')
 
@@ -39,6 +40,13 @@ def scan_module_global(tree, rel):
         for d in list(fn.args.defaults) + [k for k in fn.args.kw_defaults if k is not None]:
             if _is_mutable_expr(d):
                 out.append(('default:%s' % fn.name, fn.lineno, 'mutable default argument `%s` is shared by all calls' % ast.unparse(d), fn.name))
+            elif isinstance(d, ast.Call):
+                # an object constructed once, when the function is defined, and handed to every call that omits the argument
+                f_ = d.func
+                cname = f_.id if isinstance(f_, ast.Name) else (f_.attr if isinstance(f_, ast.Attribute) else None)
+                if cname not in IMMUTABLE_CALLS:
+                    out.append(('default:%s' % fn.name, fn.lineno, 'default argument `%s` is one object built when the function is defined and shared by every call that omits the '
+                                'argument: monitors created that way share their state' % ast.unparse(d), fn.name))
         local = {a.arg for a in fn.args.args + fn.args.kwonlyargs}
         for n in ast.walk(fn):
             if isinstance(n, ast.Name) and isinstance(n.ctx, ast.Store):
